@@ -95,7 +95,7 @@ CaseWhy(subj, cases, i, j) ==
 
 StepWhy ==
   IF ~Running THEN ""
-  ELSE CASE Head1.k = "print" -> PrintWhy(Head1, Env)
+  ELSE CASE Head1.k = "print" -> PrintWhy(Head1, Env, Top.esc)
          [] Head1.k = "css" -> IF Head1.has THEN TextUseWhy(Head1.e, Env) ELSE ""
          [] Head1.k = "if" -> IfWhy(Head1.brs, 1)
          [] Head1.k = "switch" ->
